@@ -352,6 +352,15 @@ def _prelude(ctx):
 
 
 def _eval(case, ctx):
+    try:
+        return _eval_unguarded(case, ctx)
+    except Exception as ex:
+        import traceback
+
+        return ["unexpected %s while evaluating the case: %s | %s" % (type(ex).__name__, ex, traceback.format_exc()[-400:])], {"classes": [], "nobj": "exception", "nwarn": "-"}
+
+
+def _eval_unguarded(case, ctx):
     msgs = []
     _prelude(ctx)
     text, classes = text_of(case)
